@@ -106,6 +106,10 @@ type probeCfg struct {
 }
 
 func judgeC08(rec *stats.Rec, c c08Case) (string, string) {
+	return apiGuard(func() (string, string) { return judgeC08Inner(rec, c) })
+}
+
+func judgeC08Inner(rec *stats.Rec, c c08Case) (string, string) {
 	g := lint.GlobalRegistry()
 	old := g.GetConfiguration()
 	defer g.SetConfiguration(old)
